@@ -90,6 +90,27 @@ def build(pid):
         return res
 
 
+# supplementary translation ties (harness/py2lean.py -> lean/Serif/Gen/Translated.lean -> lean/Serif/Tie/*.lean)
+TIES = {"C03": ["Serif.Tie.Typing"], "C04": ["Serif.Tie.Typing"], "C08": ["Serif.Tie.Typing"], "C07": ["Serif.Tie.Index"],
+        "C18": ["Serif.Tie.Names"]}
+
+
+def build_ties(pid):
+    """non-blocking: the translated definitions equal the model (for all inputs) — or the translator does not
+    understand the current source; reported in the evidence, never a violation by itself"""
+    out = {}
+    for mod in TIES.get(pid, []):
+        path = os.path.join(LEAN, *mod.split(".")) + ".lean"
+        if not os.path.exists(path):
+            continue
+        with BuildLock():
+            rc, log = run_cmd(["lake", "build", mod], cwd=LEAN)
+        thms = re.findall(r"^theorem\s+([A-Za-z0-9_.']+)", strip_comments(open(path).read()), re.M)
+        out[mod] = {"status": "holds" if rc == 0 else "unavailable", "theorems": thms,
+                    "log": "" if rc == 0 else "\n".join(l for l in log.splitlines() if not l.startswith("trace:"))[-600:]}
+    return out
+
+
 def theorem_names(pid):
     path = os.path.join(LEAN, "Serif", "Props", f"{pid}.lean")
     names = []
@@ -495,6 +516,7 @@ def run_check(pid, tier="quick", seed=0, nproc=None):
         if rc != 0:
             obligations_broken.append({"theorem": f"Serif.Props.{pid}", "problem": "leanchecker failed", "log": out[-1500:]})
 
+    ties = build_ties(pid)
     budgets = getattr(mod, "BUDGET_S", {"quick": 40, "thorough": 420})
     search = bool(obligations_broken)
     budget = budgets["thorough" if search else tier]
@@ -563,6 +585,7 @@ def run_check(pid, tier="quick", seed=0, nproc=None):
             "trusted_base": TRUSTED_BASE + list(getattr(mod, "TRUSTED", [])),
             "theorems": names, "axioms_used": axioms_used, "checker_note": checker_note,
             "consts_regenerated_from_source": True, "consts_extraction_errors": b["consts_errors"],
+            "translation_tie": ties,
             "evaluations": stats["evaluations"], "distinct_nontrivial": len(stats["nontrivial_distinct"]),
             "distinct_cases": len(stats["distinct"]), "skipped_cases": stats["skipped"],
             "rule": getattr(mod, "RULE", ""), "families": stats["families"], "input_distribution": stats["hist"],
